@@ -163,8 +163,10 @@ def build_set(folders, files, cuts, names, **kw):
                 elif end > split_at[(j, i - 1)]: code = PREV_AND_NEXT if tail_here else FROM_PREV
                 else: continue
                 cfiles.append(dict(f, folder=code))
+        kwi = dict(kw)
+        if isinstance(kw.get('reserve'), list): kwi['reserve'] = kw['reserve'][i]      # per-cabinet reserve sizes
         out.append(build_cab(cf, cfiles, set_index=i, prev=names[i - 1] if i else None,
-                             next=names[i + 1] if i + 1 < nparts else None, **kw))
+                             next=names[i + 1] if i + 1 < nparts else None, **kwi))
     return out
 
 
@@ -286,22 +288,29 @@ def random_case(rng, size='small', folders=None, comp=None, parts=None, embed=No
             cand += [('block', j, b, rng.choice([0, len(p), rng.randint(0, len(p))])) for _ in range(2)]
     cuts = sorted(set(rng.sample(cand, min(k - 1, len(cand)))), key=lambda c: (c[1], -1, -1) if c[0] == 'folder' else c[1:])
     names = [(('part%d.cab' % (i + 1)).encode(), rng.choice([b'', b'Disk %d' % (i + 1)])) for i in range(len(cuts) + 1)]
+    resv_parts = None
     if cuts:
         kw['cksum'] = lambda fi, bi: True       # folder/block indices differ per part: keep all checksums
+        if rng.random() < 0.5:
+            # every cabinet of a set has its own CFHEADER reserve sizes (header / folder / data)
+            resv_parts = [rng.choice([None, (rng.randbytes(rng.choice([0, 4, 20])), rng.choice([0, 1, 8]), rng.choice([0, 2, 3, 10]))]) for _ in range(len(cuts) + 1)]
+            kw['reserve'] = resv_parts
         cabs = build_set(lf, files, cuts, names, **kw)
     else:
         kw['cksum'] = lambda fi, bi: (fi, bi) not in nock
         first_index = rng.getrandbits(16)
         cabs = [build_cab(lf, files, set_index=first_index, **kw)]
     order = [n.decode() for n, _ in names[:len(cabs)]]; np = len(cabs)
+    rp = (lambda i: resv_parts[i]) if resv_parts is not None else (lambda i: resv)
     expect = {'folders': [(fo['comp'], len(fo['blocks'])) for fo in lf], 'cabs': [
-        {'set': kw['set_id'], 'idx': i if np > 1 else first_index, 'hres': len(resv[0]) if resv else 0,
-         'flags': (1 if i else 0) | (2 if i + 1 < np else 0) | (4 if resv else 0),
+        {'set': kw['set_id'], 'idx': i if np > 1 else first_index, 'hres': len(rp(i)[0]) if rp(i) else 0,
+         'flags': (1 if i else 0) | (2 if i + 1 < np else 0) | (4 if rp(i) else 0),
          'prev': names[i - 1][0] if i else None, 'previnfo': names[i - 1][1] if i else None,
          'next': names[i + 1][0] if i + 1 < np else None, 'nextinfo': names[i + 1][1] if i + 1 < np else None} for i in range(np)]}
     meta = {'open': 'open', 'order': order, 'parts': len(cabs), 'cuts': [c[0] + (':interior' if c[0] == 'block' and 0 < c[3] < len(lf[c[1]]['blocks'][c[2]][0]) else ':edge' if c[0] == 'block' else '') for c in cuts],
             'nfolders': nf, 'nfiles': len(files), 'zero_len_files': sum(1 for f in files if not f['length']),
-            'reserve': 'none' if resv is None else 'h%d/f%d/d%d' % (len(resv[0]), resv[1], resv[2]),
+            'reserve': ('per-part:' + ','.join('none' if r is None else 'h%d/f%d/d%d' % (len(r[0]), r[1], r[2]) for r in resv_parts)) if resv_parts is not None
+                       else 'none' if resv is None else 'h%d/f%d/d%d' % (len(resv[0]), resv[1], resv[2]),
             'unchecksummed_blocks': 0 if cuts else len(nock), 'folders': fmeta, 'quirks': quirks,
             'total_bytes': total, 'exact_32k_multiple': total > 0 and total % 32768 == 0, 'expect': expect}
     return {'kind': 'cab', 'files': dict(zip(order, cabs)), 'members': members, 'meta': meta}
